@@ -123,8 +123,59 @@ func corruptVers(rt *rapid.T, s string) (string, string) {
 	return s[:i] + "\x01" + s[i:], "insert"
 }
 
+// c17Cross evaluates the same constraint text under several schemes one after
+// the other in one process: whatever an earlier call left behind (a cache, a
+// memo) must not leak into a call for another scheme. Every call is judged by
+// the stateless oracles above.
+func c17Cross(t *testing.T, r *runner) {
+	rapid.Check(t, func(rt *rapid.T) {
+		first := gen.Pick(rt, "s1", eco.SchemeNames...)
+		e1 := eco.ByName(eco.Schemes[first])
+		bound := gen.Version(rt, e1.Name, "b")
+		if !versBoundOK(bound) {
+			return
+		}
+		probe := bound
+		if gen.Chance(rt, "nb", 3, 4) {
+			probe = gen.Neighbor(rt, e1, bound, "p")
+		}
+		op := gen.Pick(rt, "op", allVersOps...)
+		n := rapid.IntRange(2, 4).Draw(rt, "n")
+		schemes := []string{first}
+		for i := 1; i < n; i++ {
+			schemes = append(schemes, gen.Pick(rt, fmt.Sprintf("s%d", i+1), eco.SchemeNames...))
+		}
+		if gen.Chance(rt, "firstLast", 1, 3) {
+			schemes = append(schemes[1:], first)
+		}
+		differs := false
+		for _, sc := range schemes {
+			e := eco.ByName(eco.Schemes[sc])
+			_, err1 := e.NewVersion(bound)
+			_, err2 := e.NewVersion(probe)
+			var kc known.Case
+			if err1 == nil && err2 == nil {
+				kc = known.Case{Check: "routes", Eco: sc, Inputs: []string{sc, op, bound, probe}}
+			} else {
+				kc = known.Case{Check: "rejects", Eco: sc, Inputs: []string{"vers:" + sc + "/" + op + bound, probe}}
+				differs = true
+			}
+			r.check(rt, kc)
+		}
+		if differs && len(schemes) > 1 {
+			r.ev.NonTrivial("cross/same-text-valid-in-one-scheme-invalid-in-another", func() any { return map[string]any{"schemes": schemes, "constraint": op + bound, "probe": probe} }, append(append([]string{"cross"}, schemes...), op, bound, probe)...)
+		} else {
+			r.ev.NonTrivial("cross/same-text-several-schemes", func() any { return map[string]any{"schemes": schemes, "constraint": op + bound, "probe": probe} }, append(append([]string{"cross"}, schemes...), op, bound, probe)...)
+		}
+	})
+}
+
 func TestC17(t *testing.T) {
 	r := newRunner(t, "C17")
+	if envEco == "cross" {
+		c17Cross(t, r)
+		return
+	}
 	for _, scheme := range schemesFor(t) {
 		scheme := scheme
 		e := eco.ByName(eco.Schemes[scheme])
